@@ -45,14 +45,20 @@ def cps(s):
 # --------------------------------------------------------------------------------------------
 # what the stand-in writes for an input (fixed by the case; the stand-in has no logic of its own)
 
+def big(ex):
+    """padding that makes one result line longer than the pipe buffer"""
+    n = ex.get("biglen", 0)
+    return (" " + "q" * n) if n else ""
+
+
 def sx_result(front, tok, r, ex):
     fs = ["(:result-id . %d)" % r]
     if front == "generator":
-        fs.append('(:surface . "%s %d surf")' % (tok, r))
+        fs.append('(:surface . "%s %d surf%s")' % (tok, r, big(ex)))
     if ex.get("deriv", True):
         fs.append('(:derivation . "(d %s %d)")' % (tok, r))
     if front != "generator" or ex.get("genmrs"):
-        fs.append('(:mrs . "[ %s \\"q\\" %d ]")' % (tok, r))
+        fs.append('(:mrs . "[ %s \\"q\\" %d%s ]")' % (tok, r, big(ex) if front != "generator" else ""))
     nf = ex.get("flags", 0)
     if nf:
         fs.append("(:flags (%s))" % " ".join("(:f%d%s . %d)" % (k, tok, 10 * r + k) for k in range(nf)))
@@ -103,16 +109,16 @@ def answer_text(case, item):
     elif front == "parser":
         out.append(("SENT: %s sentence\n" if nres else "SKIP: %s sentence\n") % tok)
         for r in range(nres):
-            out.append("[ %s %d ] ; (d %s %d)\n" % (tok, r, tok, r))
+            out.append("[ %s %d%s ] ; (d %s %d)\n" % (tok, r, big(ex), tok, r))
         out.append("\n\n")
     elif front == "transferer":
         for r in range(nres):
-            out.append("[ %s %d ]\n" % (tok, r))
+            out.append("[ %s %d%s ]\n" % (tok, r, big(ex)))
         out.append("\n")
     else:
         st, sm = case.get("show", [False, False])
         for r in range(nres):
-            out.append("%s %d surf\n" % (tok, r))
+            out.append("%s %d surf%s\n" % (tok, r, big(ex)))
             if st and not ex.get("nodtree"):
                 out.append("DTREE = (d %s %d)\n" % (tok, r))
             if sm:
@@ -137,20 +143,20 @@ def expected_results(case, item):
         if tsdb:
             d = {"result-id": r}
             if front == "generator":
-                d["surface"] = "%s %d surf" % (tok, r)
+                d["surface"] = "%s %d surf%s" % (tok, r, big(ex))
             if ex.get("deriv", True):
                 d["derivation"] = "(d %s %d)" % (tok, r)
             if front != "generator" or ex.get("genmrs"):
-                d["mrs"] = '[ %s "q" %d ]' % (tok, r)
+                d["mrs"] = '[ %s "q" %d%s ]' % (tok, r, big(ex) if front != "generator" else "")
             if ex.get("flags", 0):
                 d["flags"] = [{"p": [":f%d%s" % (k, tok), 10 * r + k]} for k in range(ex["flags"])]
         elif front == "parser":
-            d = {"mrs": "[ %s %d ]" % (tok, r), "derivation": "(d %s %d)" % (tok, r)}
+            d = {"mrs": "[ %s %d%s ]" % (tok, r, big(ex)), "derivation": "(d %s %d)" % (tok, r)}
         elif front == "transferer":
-            d = {"mrs": "[ %s %d ]" % (tok, r)}
+            d = {"mrs": "[ %s %d%s ]" % (tok, r, big(ex))}
         else:
             st, sm = case.get("show", [False, False])
-            d = {"SENT": "%s %d surf" % (tok, r)}
+            d = {"SENT": "%s %d surf%s" % (tok, r, big(ex))}
             if st and not ex.get("nodtree"):
                 d["derivation"] = "(d %s %d)" % (tok, r)
             if sm:
@@ -532,7 +538,7 @@ def ok_text(front, idx, rng):
 class C19(Check):
     pid = "C19"
     level = "proof"
-    quick_cases = 150
+    quick_cases = 190
     thorough_cases = 1700
     search_budget = {"quick": 150, "thorough": 2000}
     rule = ("distinct (front end, protocol, per-input behaviour/cut/exit policy) sessions with at least one "
@@ -585,6 +591,98 @@ class C19(Check):
             out.append("def %s : List Terminus := [%s]" % (name, ", ".join(classify(p) for p in pats)))
         out.append("/-- termini `ACEGenerator._tsdb_receive` passes to `_result_lines`: %s -/" % json.dumps(gt))
         out.append("def generatorTsdbTermini : List Terminus := [%s]" % ", ".join(classify(p) for p in gt))
+        out.extend(self.pins(captured[0]))
+        return out
+
+    # ---- pins: the source constants the model (and the oracle) hand-code an equivalent of
+    MESSAGE_PREFIXES = ("cannot ", "Process closed", "ACE process", "Attempt", "Could not", "Failed to",
+                        "Possible MRS", "interact() argument", "ACE cleanup", "Invalid S-Expression")
+
+    def pins(self, gen_tsdb_termini):
+        import types
+        from delphin import itsdb, util
+        lit = tables.lean_strlit
+
+        def render(c):
+            if isinstance(c, str):
+                return c
+            if isinstance(c, (tuple, frozenset, list)):
+                xs = sorted(c, key=repr) if isinstance(c, frozenset) else c
+                return "(" + ", ".join(render(x) for x in xs) + ")"
+            return repr(c)
+
+        def consts(fn):
+            """string/number/bool/tuple constants of a function and of the code objects nested in it, in
+            order; None, the docstring and log/exception message texts are left out"""
+            out = []
+
+            def walk(code):
+                for c in code.co_consts:
+                    if isinstance(c, types.CodeType):
+                        walk(c)
+                    elif c is None or c == fn.__doc__:
+                        continue
+                    elif isinstance(c, str) and c.startswith(self.MESSAGE_PREFIXES):
+                        continue
+                    elif isinstance(c, (str, int, float, bool, tuple, frozenset)):
+                        out.append(render(c))
+            walk(fn.__code__)
+            return out
+
+        def strlist(name, doc, xs):
+            return ["/-- %s -/" % doc, "def %s : List String := [%s]" % (name, ", ".join(lit(x) for x in xs))]
+
+        P, PA, TR, GE = ace.ACEProcess, ace.ACEParser, ace.ACETransferer, ace.ACEGenerator
+        rows = [
+            ("c19InitConsts", "ACEProcess.__init__: default executable, version thresholds, options per protocol", consts(P.__init__)),
+            ("c19InitDefaults", "__defaults__ of ACEProcess/ACEParser, ACETransferer, ACEGenerator .__init__ and of "
+             "_result_lines, process_item", [render(P.__init__.__defaults__), render(PA.__init__.__defaults__),
+                                             render(TR.__init__.__defaults__), render(GE.__init__.__defaults__),
+                                             render(P._result_lines.__defaults__), render(P.process_item.__defaults__)]),
+            ("c19TransfererInitConsts", "ACETransferer.__init__: what it passes on (tsdbinfo=False, full_forest=False)", consts(TR.__init__)),
+            ("c19GeneratorInitConsts", "ACEGenerator.__init__: what it passes on (full_forest=False)", consts(GE.__init__)),
+            ("c19OpenConsts", "ACEProcess._open", consts(P._open)),
+            ("c19ResultLinesConsts", "ACEProcess._result_lines", consts(P._result_lines)),
+            ("c19ReadRunInfoConsts", "ACEProcess._read_run_info", consts(P._read_run_info)),
+            ("c19SendConsts", "ACEProcess.send", consts(P.send)),
+            ("c19TsdbReceiveConsts", "ACEProcess._tsdb_receive", consts(P._tsdb_receive)),
+            ("c19InteractConsts", "ACEProcess.interact", consts(P.interact)),
+            ("c19ProcessItemConsts", "ACEProcess.process_item", consts(P.process_item)),
+            ("c19CloseConsts", "ACEProcess.close", consts(P.close)),
+            ("c19ValidateNames", "names used by the three _validate_input (parser; transferer; generator)",
+             [render(PA._validate_input.__code__.co_names) + render(tuple(consts(PA._validate_input))),
+              render(TR._validate_input.__code__.co_names) + render(tuple(consts(TR._validate_input))),
+              render(GE._validate_input.__code__.co_names) + render(tuple(consts(GE._validate_input)))]),
+            ("c19ParserReceiveConsts", "ACEParser._default_receive", consts(PA._default_receive)),
+            ("c19TransfererReceiveConsts", "ACETransferer._default_receive", consts(TR._default_receive)),
+            ("c19GeneratorReceiveConsts", "ACEGenerator._default_receive", consts(GE._default_receive)),
+            ("c19GeneratorTsdbReceiveConsts", "ACEGenerator._tsdb_receive", consts(GE._tsdb_receive)),
+            ("c19AceVersionConsts", "ace._ace_version", consts(ace._ace_version)),
+            ("c19PossibleMrsConsts", "ace._possible_mrs", consts(ace._possible_mrs)),
+            ("c19MakeResponseConsts", "ace._make_response", consts(ace._make_response)),
+            ("c19SexprDataConsts", "ace._sexpr_data", consts(ace._sexpr_data)),
+            ("c19TsdbResponseConsts", "ace._tsdb_response", consts(ace._tsdb_response)),
+            ("c19SExprParseConsts", "util._SExpr_parse", consts(util._SExpr_parse)),
+            ("c19SExprNumberConsts", "util._SExpr_parse_number", consts(util._SExpr_parse_number)),
+            ("c19SExprStringConsts", "util._SExpr_parse_string", consts(util._SExpr_parse_string)),
+            ("c19SExprSymbolConsts", "util._SExpr_parse_symbol, _SExpr_unescape_string, _SExpr_unescape_symbol; "
+             "_SExpr_symbol_re pattern and flags; _SExpr_escape_chars",
+             consts(util._SExpr_parse_symbol) + consts(util._SExpr_unescape_string)
+             + consts(util._SExpr_unescape_symbol)
+             + [util._SExpr_symbol_re.pattern, str(util._SExpr_symbol_re.flags), util._SExpr_escape_chars]),
+            ("c19ClassTables", "task and _cmdargs of ACEProcess, ACEParser, ACETransferer, ACEGenerator; "
+             "interface.Processor.task",
+             [render((getattr(k, "task", None), tuple(k._cmdargs))) for k in (P, PA, TR, GE)]
+             + [render(interface.Processor.task)]),
+            ("c19TerminiPatterns", "pattern/flags of the termini: parser, transferer, generator, generator tsdb",
+             ["%s/%d" % (t.pattern, t.flags) for t in list(PA._termini) + list(TR._termini) + list(GE._termini)
+              + list(gen_tsdb_termini)]),
+            ("c19TaskSelectors", "itsdb._default_task_selectors (which column feeds each task)",
+             ["%s:%s" % (k, render(v)) for k, v in sorted(itsdb._default_task_selectors.items())]),
+        ]
+        out = []
+        for name, doc, xs in rows:
+            out.extend(strlist(name, "`%s`" % doc, xs))
         return out
 
     # ---- implementation
@@ -955,6 +1053,7 @@ class C19(Check):
                                                                        ex={"note": True, "warning": True, "error": True})],
                            exit_ok=6, runnote=(ci % 2 == 1)))
         cs.extend(regression_cases())
+        cs.extend(long_cases())
         if tier == "thorough":
             # every byte position of one answer per configuration
             for front, tsdb, show in configs:
@@ -1079,6 +1178,14 @@ class C19(Check):
         if case.get("process_item"):
             inc("via:process_item")
         for it in case["items"]:
+            n = len(it["text"])
+            inc("inlen:" + ("<100" if n < 100 else "<4095" if n < 4095 else "4095-4097" if n <= 4097 else
+                            "<8191" if n < 8191 else "8191-8193" if n <= 8193 else "<65535" if n < 65535 else
+                            "65535-65537" if n <= 65537 else ">65537"))
+            if it.get("ex", {}).get("biglen"):
+                inc("answer:line>64KiB")
+            if it.get("nres", 0) >= 1000:
+                inc("answer:thousands-of-lines")
             if it.get("kind") == "skip":
                 inc("item:skip")
             elif it.get("die"):
@@ -1132,6 +1239,67 @@ def regression_cases():
         cs.append(case("F18-F19-exit-unanswered", front, tsdb,
                        [mk_item(0, front), mk_item(1, front, "die", die=die_spec(delay_exit=30), cut=0, sync=True),
                         mk_item(2, front), mk_item(3, front)]))
+    return cs
+
+
+LENS = [10, 3000, 4095, 4096, 4097, 8191, 8192, 8193, 65535, 65536, 65537, 200000]
+
+
+def long_text(front, idx, n):
+    """an acceptable input of exactly `n` characters (never shorter than its fixed parts)"""
+    tok = "i%dx" % idx
+    head, tail = (tok + " ", " dogs bark") if front == "parser" else ("[ LTOP: h0 " + tok + " ", " [ x ] ]")
+    return head + "p" * max(0, n - len(head) - len(tail)) + tail
+
+
+def long_cases():
+    """input and answer LENGTH as a dimension: the buffer sizes of TextIOWrapper/BufferedWriter (8192), of the
+    chunk a text write hands down (4096) and of the pipe (65536), at every failure point"""
+    cs = []
+
+    def case(kind, front, tsdb, items):
+        return {"kind": kind, "front": front, "tsdb": tsdb, "show": [False, False], "items": items,
+                "runnote": True, "exit_ok": 0, "process_item": False}
+
+    def ok(front, idx, n, **kw):
+        return mk_item(idx, front, "ok", text=long_text(front, idx, n), **kw)
+
+    def die(front, idx, n, spec, **kw):
+        return mk_item(idx, front, "die", text=long_text(front, idx, n), die=spec, **kw)
+
+    for k, n in enumerate(LENS):
+        for rep, (front, tsdb) in enumerate([FRONTS[k % 5]] + ([FRONTS[(k + 3) % 5]] if n >= 4095 else [])):
+            # the child closes its stdin, answers, lingers (still running for poll()): the next write breaks
+            cs.append(case("long-brokenPipe", front, tsdb,
+                           [ok(front, 0, n), die(front, 1, 10, die_spec(close_stdin=True, delay_exit=300)),
+                            ok(front, 2, n), ok(front, 3, 10)]))
+        front, tsdb = FRONTS[(k + 1) % 5]
+        base = {"front": front, "tsdb": tsdb, "show": [False, False]}
+        half = len(answer_text(base, mk_item(2, front, nres=2))) // 2
+        cs.append(case("long-allPoints", front, tsdb, [
+            die(front, 0, 10, die_spec(delay_exit=20), cut=0, sync=True), ok(front, 1, n),
+            die(front, 2, n, die_spec(delay_exit=20), nres=2, cut=half, sync=True), ok(front, 3, n),
+            die(front, 4, 10, die_spec("exit_first")), ok(front, 5, n),
+            die(front, 6, 10, die_spec("linger_stdin", code=4)), ok(front, 7, n), ok(front, 8, 10),
+            die(front, 9, 10, die_spec(delay_exit=20), sync=True), ok(front, 10, n)]))
+    # long answers: one line beyond the pipe buffer, thousands of lines; complete and cut by an exit
+    for front, tsdb in FRONTS:
+        base = {"front": front, "tsdb": tsdb, "show": [False, False]}
+        one = {"biglen": 70000}
+        n1 = len(answer_text(base, mk_item(1, front, nres=1, ex=one)))
+        n3 = len(answer_text(base, mk_item(3, front, nres=3000)))
+        cs.append(case("long-answers", front, tsdb, [
+            mk_item(0, front, nres=1, ex=dict(one)),
+            mk_item(1, front, "die", nres=1, ex=dict(one), die=die_spec(delay_exit=20), cut=n1 - 30000, sync=True),
+            mk_item(2, front, nres=3000),
+            mk_item(3, front, "die", nres=3000, die=die_spec(delay_exit=20), cut=n3 // 2, sync=True),
+            mk_item(4, front, "die", nres=2, ex={"biglen": 66000}, die=die_spec("exit_first")),
+            mk_item(5, front)]))
+    # long unacceptable inputs
+    cs.append(case("long-skip", "parser", True, [mk_item(0, "parser", "skip", text=" " * 70000), ok("parser", 1, 10)]))
+    cs.append(case("long-skip", "generator", False,
+                   [mk_item(0, "generator", "skip", text="i0x " + "p" * 70000), ok("generator", 1, 10),
+                    mk_item(2, "generator", "skip", text="[ i2x " + "p" * 9000)]))
     return cs
 
 
